@@ -1028,6 +1028,13 @@ class World:
         if ty.strip() == '&str':
             out.w(f'{vis}const {it["name"]}: &\'static str = {expr};\n')
             return
+        if re.fullmatch(r'(u8|u16|u32|u64|u128|usize|i8|i16|i32|i64|i128|isize|bool)', ty.strip()) and \
+                re.fullmatch(r'[\s\d_()+\-*/%a-z]+|true|false', expr.strip()) and not (opts and opts.extra):
+            # a primitive constant defined by literals and arithmetic: a plain `const` is both spec and exec in Verus, so its
+            # value is known wherever it is used (an `exec const` without `ensures` would hide it - false alarm on an edit that
+            # merely names a literal)
+            out.w(f'{vis}const {it["name"]}: {ty.strip()} = {expr};\n')
+            return
         mt = re.match(r'^(Item|Map|Admin)\s*<(.*)>$', ty.strip(), re.S)
         if mt:
             ty = f"{mt.group(1)}<'static, {mt.group(2)}>"
